@@ -71,6 +71,16 @@ class SchemaDocGen:
                     vt = G.nn(ty)          # non-null variable in a nullable position
                 else:
                     default = self.value(ty, 2, allow_var=False)
+            if default is None and r.chance(1, 2):
+                # a list variable whose ITEMS are stricter than the location's (AreTypesCompatible looks inside lists): [T!] into [T], [[T!]!] into [[T]]
+                def stricter(t):
+                    if t["k"] == "nn":
+                        return G.nn(stricter(t["of"]))
+                    if t["k"] == "list":
+                        inner = stricter(t["of"])
+                        return G.lst(inner if inner["k"] == "nn" else G.nn(inner))
+                    return t
+                vt = stricter(vt)
             self.vars[name] = G.vardef(name, vt, default)
         else:
             # an existing variable of a compatible type is reused as is
